@@ -69,7 +69,7 @@ def parseCase (c : String) : Option (List COp) :=
       let okPs := ps = "4096" || ps = "8192" || ps = "16384"
       let okMk := match mk.toNat? with | some n => 3 ≤ n && n ≤ 16 | none => false
       let okSib := match sib.toNat? with | some n => 1 ≤ n && n ≤ 8 | none => false
-      let okKt := ["u64", "i64", "text", "ltext", "mtext", "comp"].contains kt
+      let okKt := ["u64", "i64", "text", "ltext", "mtext", "btext", "comp"].contains kt
       if okPs && okMk && okSib && okKt then
         let body := (c.drop (head.length + 1)).toString
         match allSome ((body.splitOn " ; ").map parseOp) with
